@@ -884,18 +884,25 @@ func (ex *Exec) enterLoop(f *frame, st *State, h *ssa.BasicBlock, li *loopInfo, 
 	for _, c := range mods {
 		if c == "*" {
 			for _, k := range sortedKeys(ex.V.compSorts) {
-				if k != compAlloc {
+				if k != compAlloc && !strings.HasPrefix(k, "LK:") && !strings.HasPrefix(k, "LA:") && !strings.HasPrefix(k, "G:") {
 					ex.loopHavoc(st, k)
 				}
 			}
 			ex.havocAlloc(st)
-			break
+			continue
 		}
 		if c == compAlloc {
 			ex.havocAlloc(st)
 			continue
 		}
 		ex.loopHavoc(st, c)
+	}
+	// the clock only moves forward across iterations
+	if _, ok := ex.compSort("G:clock"); ok {
+		old := ex.get(st, "G:clock", SInt)
+		nw := ex.sc.freshConst("lhv:clock", SInt)
+		st.heap["G:clock"] = nw
+		ex.sc.assert(app(SBool, ">=", nw, old))
 	}
 	ex.assumeInvariants(f, st, li)
 }
